@@ -55,7 +55,8 @@ func (c20Strategy) PersistEntity(_ *c20Ent, _ *boltz.PersistContext) {}
 
 type c20Stores struct {
 	a, b *boltz.BaseStore[*c20Ent]
-	pub  []string // a.GetPublicSymbols(), sorted
+	pub  []string   // a.GetPublicSymbols(), sorted
+	pubs [][]string // child stores (c20_child.go): the public symbols of a and of every store up its parent chain
 }
 
 // assignable symbols of store A: bit i set <=> c20Bits[i] is made public
@@ -72,6 +73,17 @@ func c20StoreFor(mask uint64) *c20Stores {
 	if v, ok := c20StoreCache.Load(mask); ok {
 		return v.(*c20Stores)
 	}
+	a, b := c20NewPair()
+	c20ApplyMask(a, mask)
+	pub := a.GetPublicSymbols()
+	sort.Strings(pub)
+	st := &c20Stores{a: a, b: b, pub: pub}
+	c20StoreCache.Store(mask, st)
+	return st
+}
+
+// a fresh pair of stores with every symbol declared and nothing made public yet
+func c20NewPair() (*boltz.BaseStore[*c20Ent], *boltz.BaseStore[*c20Ent]) {
 	mk := func(name string) *boltz.BaseStore[*c20Ent] {
 		s := boltz.NewBaseStore(boltz.StoreDefinition[*c20Ent]{EntityType: name, EntityStrategy: c20Strategy{}, BasePath: []string{"c20"}})
 		s.InitImpl(s)
@@ -87,7 +99,7 @@ func c20StoreFor(mask uint64) *c20Stores {
 	b.MakeSymbolPublic("tags")
 	b.AddFkSetSymbol("owners", a)
 	// store A: id and boss are public by construction (AddIdSymbol / AddFkSymbol), everything else is
-	// declared non-public and made public according to the mask
+	// declared non-public (and made public according to a mask afterwards)
 	a.AddIdSymbol("id", ast.NodeTypeString)
 	a.AddFkSymbol("boss", b)
 	a.AddEntitySymbol(a.NewEntitySymbol("name", ast.NodeTypeString))
@@ -100,16 +112,7 @@ func c20StoreFor(mask uint64) *c20Stores {
 	a.AddSetSymbol("roles", ast.NodeTypeString)
 	a.AddSetSymbol("nums", ast.NodeTypeInt64)
 	a.AddFkSetSymbol("kids", b)
-	for i, name := range c20Bits {
-		if mask&(1<<uint(i)) != 0 {
-			a.MakeSymbolPublic(name)
-		}
-	}
-	pub := a.GetPublicSymbols()
-	sort.Strings(pub)
-	st := &c20Stores{a: a, b: b, pub: pub}
-	c20StoreCache.Store(mask, st)
-	return st
+	return a, b
 }
 
 // which mask bits decide whether symbol s is public
@@ -354,6 +357,8 @@ type c20Emitter struct {
 	facts *c20Facts
 	n     int
 	seen  map[string]bool
+	nBase  int // lines emitted against a store without parent
+	nChild int // child-store variants emitted (c20_child.go)
 }
 
 func (e *c20Emitter) line(tag string, mask uint64, query string, toks []string) {
@@ -373,6 +378,18 @@ func (e *c20Emitter) line(tag string, mask uint64, query string, toks []string) 
 	e.out.WriteString(l)
 	e.out.WriteByte('\n')
 	e.n++
+	// the same case against a child store (own assignment `mask`, parents differing): every case whose own
+	// assignment leaves a referenced symbol non-public is a candidate for "the parent's answer leaks in"
+	if tag != "u" && mask&(1<<c20ExplicitElemBit) == 0 {
+		e.nBase++
+		every := 5
+		if e.tier == "thorough" {
+			every = 4
+		}
+		if e.nBase%every == 0 {
+			e.childVariants(tag, mask, query, toks)
+		}
+	}
 }
 
 // masks for a tree: the assignments over the symbols it references (all of them in the thorough
@@ -1012,13 +1029,13 @@ func c20Exec(line string) string {
 		return "bad-case"
 	}
 	tag := f[0]
-	mask, err := strconv.ParseUint(f[1], 10, 64)
-	if err != nil {
+	chain, ok := c20ParseChain(f[1])
+	if !ok {
 		return "bad-case"
 	}
-	st := c20StoreFor(mask)
-	if c20Names(st.pub) != f[3] || c20Names(c20Maps) != f[2] {
-		return "cfg-mismatch " + c20Names(st.pub)
+	st := c20StoreForChain(chain)
+	if ms, ps := st.cfgFields(); ps != f[3] || ms != f[2] {
+		return "cfg-mismatch " + ps
 	}
 	toks := f[5:]
 	var srcToks, tabToks []string
